@@ -174,6 +174,51 @@ def reject_run(env, n):
     return cw
 
 
+def panic_abort_probe(env):
+    """With panic=abort nothing can catch the export-only panic: the process has to die in the call.
+    A build in which seal/open RETURN on an export-only context has stopped panicking."""
+    g = gen.G(env.rnd)
+    n = 0
+    for kind in ("seal_inplace", "seal_alloc", "open_inplace", "open_alloc", "ss_seal", "ss_open"):
+        cw = cl.CaseW()
+        s = cw.session(0x0020, 1 + n % 3, 0xFFFF, sid="pa%d" % n)
+        n += 1
+        gen.add_pair(s, g, 0x0020, 0)
+        s.call("export", ctx="S", exctx="-", len=16)
+        if kind == "seal_inplace":
+            s.call("seal", ctx="S", api="inplace", pt="0102", aad="-", probe=kind)
+        elif kind == "seal_alloc":
+            s.call("seal", ctx="S", api="alloc", pt="0102", aad="-", probe=kind)
+        elif kind == "open_inplace":
+            s.call("open", ctx="R", api="inplace", ct="0102", tag="-", aad="-", probe=kind)
+        elif kind == "open_alloc":
+            s.call("open", ctx="R", api="alloc", ct="0102", aad="-", probe=kind)
+        elif kind == "ss_seal":
+            s.call("ss_seal", mode=0, pkr="$kR.pk", info="-", pt="01", aad="-", rng=g.rbytes(32), api="inplace", probe=kind)
+        else:
+            s.call("ss_open", mode=0, skr="$kR.sk", enc="$S.enc", info="-", ct="01", tag="-", aad="-", api="inplace", probe=kind)
+        s.call("export", ctx="S", exctx="-", len=16, after=1)
+        res = env.drive("abort-" + kind, cw.text(), build="panic-abort")
+        if res.timed_out:
+            env.inconclusive.append("panic=abort probe %s: watchdog" % kind)
+            continue
+        probe = [o for ss in res.sessions for o in (ss.all_ops or ss.ops) if o.args.get("probe") == kind]
+        env.count("evaluations", 1)
+        if not probe:
+            env.inconclusive.append("panic=abort probe %s: the probe call was not reached" % kind)
+            continue
+        o = probe[0]
+        if o.ret is not None:
+            env.violation("C11:export_only_returned_under_panic_abort:%s" % kind,
+                          "in a build with panic=abort, %s on an export-only context returned (%s) instead of ending the process" % (kind, o.outcome()),
+                          case_text=res.sessions[0].case_text(o.id), workload="panic_abort")
+        elif res.rc == 0:
+            env.inconclusive.append("panic=abort probe %s: no return event but exit code 0" % kind)
+        else:
+            env.seen(("panic_abort", kind))
+            env.count("panic_abort_process_deaths", 1)
+
+
 def dense_lengths(env):
     """thorough: every L in 0..=16400 for one suite per KDF, and 65500..65600"""
     g = gen.G(env.rnd)
@@ -195,6 +240,7 @@ def run(env):
     res = env.drive("rejects", reject_run(env, env.pick(66000, 140000)).text())
     env.require_complete(res, "rejects")
     env.pmap(monitor, res.sessions, workload="export")
+    panic_abort_probe(env)
     if not env.quick():
         res = env.drive("dense", dense_lengths(env).text())
         env.require_complete(res, "dense")
